@@ -402,7 +402,7 @@ func attribute(reqs []evReq, evs []evDelivered, filter map[string]any) ([]evLine
 }
 
 func C19(c *core.Ctx, replay string) {
-	c.Rule = "Programs of succeeding and failing object-changing requests (put, copy, multipart completion, delete, batch delete with a per-key failure, put/delete tagging; keys plain, nested, with characters that need encoding, and directory objects; in a versioned bucket a batch delete by version id with an entry naming a version that does not exist) run against a real gateway whose real webhook sender posts to the harness's collector, sequentially, with 16 concurrent clients, under several event-filter files, and in a gated schedule in which a notification is held before serialisation while the next request reuses the request context. Each request's outcome with the notifications attributed to it (by key) is one trace line validated by TLC against EventPipe's rule (exactly one right event per affected key, none for failures, filter applied). TLC also model-checks the pipeline model (record built from the pooled context, serialised later). Non-trivial: a request that failed, a batch, or a request under a filter."
+	c.Rule = "Programs of succeeding and failing object-changing requests (put, copy, multipart completion, delete, batch delete with a per-key failure, put/delete tagging; keys plain, nested, with characters that need encoding, and directory objects; in a versioned bucket a batch delete by version id with an entry naming a version that does not exist) run against a real gateway whose real webhook sender posts to the harness's collector, sequentially, with 16 concurrent clients, under several event-filter files (two of them with an entry that contradicts the wildcard of its family, each loaded by several freshly started gateways), and in a gated schedule in which a notification is held before serialisation while the next request reuses the request context. Each request's outcome with the notifications attributed to it (by key) is one trace line validated by TLC against EventPipe's rule (exactly one right event per affected key, none for failures, filter applied). TLC also model-checks the pipeline model (record built from the pooled context, serialised later). Non-trivial: a request that failed, a batch, or a request under a filter."
 	c.Assumptions = []string{"events are attributed to requests by object key (keys are unique per request)", "quiescence = no notification for 400 ms"}
 	for _, sw := range []string{"TRUE", "FALSE"} {
 		res, err := tlc.Run(c.Scratch, tlc.Opts{Module: "EventPipe", Workers: 1,
@@ -593,6 +593,44 @@ func C19(c *core.Ctx, replay string) {
 		}
 		env.Close()
 		ctl.Close()
+	}
+	// (4) filter precedence: a configuration in which an entry for one event type
+	// contradicts the wildcard of its family, loaded by several freshly started gateways
+	// (whatever is decided while a configuration is LOADED is decided anew at every start)
+	for fi, filter := range []map[string]any{ff[1], ff[2]} {
+		for start := 0; start < c.Pick(6, 10); start++ {
+			env := MustEnv(c, false, false, func(g *gw.Config) {
+				g.WebhookURL = co.URL()
+				p := filepath.Join(c.Scratch, fmt.Sprintf("filter-prec-%d.json", fi))
+				b, _ := json.Marshal(filter)
+				os.WriteFile(p, b, 0o644)
+				g.EventFilter = p
+			})
+			if env == nil {
+				return
+			}
+			d := &evDriver{c: c, cl: env.Root, b: "evb", n: 90000 + fi*1000 + start*20}
+			CreateBucket(env.Root, d.b)
+			co.quiesce(200 * time.Millisecond)
+			co.drain()
+			d.put(true, 10)
+			d.copyObj(true, 10)
+			d.del(10)
+			d.batchDelete(false)
+			co.quiesce(400 * time.Millisecond)
+			evs, _ := co.drain()
+			ls, orphans := attribute(d.reqs, evs, filter)
+			for _, o := range orphans {
+				c.Violation(core.FP("C19", "unknown-key-in-notification", o.Type), fmt.Sprintf("notification for a key no request used: %+v", o), o)
+			}
+			for _, l := range ls {
+				l.Mode = "filter-precedence"
+				lines = append(lines, l)
+				meta = append(meta, l)
+				c.Eval(fmt.Sprintf("prec|%d|%d|%s|%s", fi, start, l.R.Op, l.R.Keys[0].K))
+			}
+			env.Close()
+		}
 	}
 	if len(lines) == 0 {
 		c.Inconclusive("nothing executed")
